@@ -479,6 +479,21 @@ def rel3(ctx, c):
                 "so any other predicate sends label+n,PCR through the plain-label path (target read as statement 0)" % (name, test), repo.loc(f, node))
     if len(sites) < 2:
         c.undecided("address-expression-predicate", "sites-not-found", str([s[0] for s in sites]), where)
+    ex = repo.method("ExpressionValue", "extract_address_index_from_expression", inherited=False)
+    rets = [n.value for n in ast.walk(ex.node) if isinstance(n, ast.Return) and n.value is not None]
+    if len(rets) == 1 and isinstance(rets[0], ast.IfExp):
+        r = rets[0]
+        m = re.fullmatch(r"self\.(left|right)\.(\w+)\(\)", U(r.test))
+        if m:
+            side, pred = m.groups()
+            other = "right" if side == "left" else "left"
+            good = pred == "is_address" and U(r.body) == "self.%s.int" % side and U(r.orelse) == "self.%s.int" % other
+            c.check(good, "extract_address_index_from_expression", "index of the operand that is the label", "returns %s" % U(r),
+                    "extract_address_index_from_expression returns `%s`: the statement index must come from the operand that is an address, the other operand is the constant" % U(r), repo.loc(ex, ex.node))
+        else:
+            c.undecided("extract_address_index_from_expression", "shape-unknown", U(r), repo.loc(ex, ex.node))
+    else:
+        c.undecided("extract_address_index_from_expression", "shape-unknown", "", repo.loc(ex, ex.node))
 
 
 def rel5(ctx, c):
